@@ -486,7 +486,7 @@ package process
 //@   requires[C09] n != nil && polarityReady(deref(n))
 //@ contract checkExplicitPolarityValidity
 //@   requires[C09] formOK(p)
-//@   requires[C09] forall k int :: 0 <= k && k < len(names) ==> polarityReady(names[k])
+//@   requires[C09] forall k int :: 0 <= k && k < len(names) ==> (names[k].ExplicitPolarity != nil && names[k].Type != nil ==> !is(names[k].Type, types.LabelType))
 //@ contract (*Name).ExplicitPolarityValid
 //@   ensures[C09] C09.polarityChecked: !result ==> n.ExplicitPolarity != nil && n.Type != nil
 //@   pure
@@ -516,10 +516,10 @@ package process
 //@   loop[C09] 2 invariant tcReady(gammaNameTypesCtx, providerType, labelledTypesEnv, sigma) && ready(types.SessionType(clientSelectLabelType), dom(labelledTypesEnv), vals(labelledTypesEnv))
 //@ contract (*CallForm).typecheckForm
 //@   loop[C09] 1 invariant argsFrame() && gammaReady(gammaNameTypesCtx, dom(labelledTypesEnv), vals(labelledTypesEnv))
-//@   loop[C09] 1 invariant keptNewForm(Form(p))
+//@   loop[C09] 1 invariant keptNewType(Form(p))
 //@   loop[C09] 1 decreases len(p.parameters) - i
 //@   loop[C09] 2 invariant argsFrame() && gammaReady(gammaNameTypesCtx, dom(labelledTypesEnv), vals(labelledTypesEnv))
-//@   loop[C09] 2 invariant keptNewForm(Form(p))
+//@   loop[C09] 2 invariant keptNewType(Form(p))
 //@   loop[C09] 2 decreases len(p.parameters) - i
 
 // ---- C09: the cut rule
@@ -547,12 +547,14 @@ package process
 
 // typecheckForm (*NewForm) re-reads the annotation of its own name after checking the spawned term: checking a
 // term only writes annotations inside that term (tree numbering flo/fhi as for substitution)
+// (the redundant disequality gives the solvers the case split they need at the one place where self's own annotation is written)
+//@ macro keptNewType(t Form) bool = forall a6 *NewForm :: Form(a6) != t && fout(Form(a6), t) ==> a6.new_name_c.Type == old(a6.new_name_c.Type)
 //@ contract interface Form.typecheckForm(self, gamma, sh, providerType, env, sigma, globalEnv)
 //@   requires[C09] formTree(self)
-//@   ensures[C09] C09.tcNewKept: keptNewForm(self)
+//@   ensures[C09] C09.tcNewKept: keptNewType(self)
 //@ contract (*CaseForm).typecheckForm
-//@   loop[C09] 1 invariant keptNewForm(Form(p))
-//@   loop[C09] 2 invariant keptNewForm(Form(p))
+//@   loop[C09] 1 invariant keptNewType(Form(p))
+//@   loop[C09] 2 invariant keptNewType(Form(p))
 
 // ---- C09: the phases of the typechecker. What the parser hands over (assumed, as far as it is about shapes):
 // well-shaped type trees and terms without nil children, names that are not yet bound to channels, and parameter /
@@ -664,3 +666,10 @@ package process
 //@   ensures[C09] C09.oneVerdict: sent[errorChan] + sent[doneChan] == old(sent[errorChan]) + old(sent[doneChan]) + 1
 //@ contract Typecheck
 //@   requires[C09] programShape(processes, assumedFreeNames, globalEnv)
+
+// intermediate facts that split the longest proofs of the sweep
+//@ contract (*ReceiveForm).typecheckForm
+//@   callsite[C09] C09.recvKidsReady process.Form.typecheckForm#2: ready(newLeftType, dom(labelledTypesEnv), vals(labelledTypesEnv)) && ready(newRightType, dom(labelledTypesEnv), vals(labelledTypesEnv))
+//@ contract (*NewForm).typecheckForm
+//@   callsite[C09] C09.cutKeptMidCall process.Form.typecheckForm#2: keptNewType(Form(p))
+//@   callsite[C09] C09.cutKeptMid process.Form.typecheckForm#4: keptNewType(Form(p))
